@@ -35,7 +35,10 @@ type C05Case struct {
 // name concretisations: tokens -> path segments (injective)
 var nameConcs = map[string]map[string]string{
 	"hostile": {"p": "pre fix", "q": "q%41#?", "f1": "a b.txt", "f2": "x%41y;+?#.html", "d1": "dir <&>'\"", "d2": "sub dir", "f3": "ü é.bin", "new": "n e%20w"},
-	"plain":   {"p": "p", "q": "q", "f1": "f1.txt", "f2": "f2.html", "d1": "d1", "d2": "d2", "f3": "f3.bin", "new": "new"},
+	// names that mean something to URL parsers and to file servers: a letter-led first segment with a colon (a scheme, if
+	// mistaken for a URL), the classic directory-index name, a Windows drive form
+	"webby": {"p": "p", "q": "q", "f1": "index.html", "f2": "note:1.txt", "d1": "d:1", "d2": "index.html", "f3": "C:x.bin", "new": "urn:new"},
+	"plain": {"p": "p", "q": "q", "f1": "f1.txt", "f2": "f2.html", "d1": "d1", "d2": "d2", "f3": "f3.bin", "new": "new"},
 }
 
 var contents = map[string][]byte{"empty": {}, "small": []byte("hello\n"), "binary": {0, 1, 2, 0xff, 0xfe, '<', '&', '>', 0}, "large": nil}
@@ -189,14 +192,22 @@ func runC05(in, concName, scratch string, emit func(interface{})) {
 			os.Exit(2)
 		}
 		ev := map[string]interface{}{"k": c.K, "ci": ci, "srv": c.Fs, "what": c.K + " ep=" + c.Ep + " name=" + c.Form, "panic": false, "err": "", "stage": "", "got": []objRow{}, "want": []objRow{}}
-		func() {
+		// a call that does not return within the watchdog is recorded as an error of stage "hang" (its goroutine is abandoned)
+		fin := make(chan map[string]interface{}, 1)
+		go func(ev map[string]interface{}) {
 			defer func() {
 				if r := recover(); r != nil {
 					ev["panic"] = true
 				}
+				fin <- ev
 			}()
 			c05one(c, concName, scratch, ev)
-		}()
+		}(ev)
+		select {
+		case ev = <-fin:
+		case <-time.After(60 * time.Second):
+			ev = map[string]interface{}{"k": c.K, "ci": ci, "srv": c.Fs, "what": c.K + " ep=" + c.Ep + " name=" + c.Form, "panic": false, "err": "the call did not return", "stage": "hang", "got": []objRow{}, "want": []objRow{}}
+		}
 		emit(ev)
 	}
 }
